@@ -283,7 +283,14 @@ pub fn gen_c01(seed: u64, thorough: bool) {
         e.condition.set_volume(vdb);
         let nlab = if i % 10 == 9 { 0 } else if kind == "bundled" && !small { rng.range(1, 2) } else { rng.range(1, 6) };
         let recombine = rng.chance(0.5);
-        let mut lines = src.labels(&mut rng, nlab, recombine);
+        let mut lines = if i % 8 == 5 {
+            // silence / pause only: no frame is GV-eligible, nothing is voiced
+            let sil: Vec<&String> = src.corpus.iter().filter(|l| l.contains("-sil+") || l.contains("-pau+")).collect();
+            (0..rng.range(1, 3)).map(|_| sil[rng.below(sil.len())].clone()).collect()
+        } else {
+            src.labels(&mut rng, nlab, recombine)
+        };
+        let nlab = lines.len();
         if rng.chance(0.3) && nlab > 0 {
             // alignment on, with time stamps on some lines
             e.condition.set_phoneme_alignment_flag(true);
@@ -456,10 +463,11 @@ pub fn gen_c15(seed: u64, thorough: bool) {
     let n = if thorough { 1500 } else { 80 };
     let bundled_voice = jbonsai::model::load_htsvoice_file(&BUNDLED_VOICE).unwrap();
     for i in 0..n {
-        let (mut e, kind) = match i % 3 {
+        // C15 quantifies over the bundled voice and PDF-perturbed copies of it (not over synthetic voices,
+        // whose constant log-F0 trajectories make the GV stage amplify rounding noise)
+        let (mut e, kind) = match i % 2 {
             0 => (src.bundled.clone(), "bundled"),
-            1 => (engine_of(vec![Arc::new(perturb_voice(&bundled_voice, &mut rng))]).unwrap(), "perturbed"),
-            _ => { let ns = rng.range(2, 3); let nst = rng.range(1, 6); (src.generated(&mut rng, ns, 0, nst), "generated") }
+            _ => (engine_of(vec![Arc::new(perturb_voice(&bundled_voice, &mut rng))]).unwrap(), "perturbed"),
         };
         random_condition(&mut rng, &mut e, true);
         let nlab = rng.range(2, 6);
